@@ -10,6 +10,10 @@
 #include "algorithms/openmp/tbfopenmpalgorithmtsm.hpp"
 #endif
 
+#ifdef VF_COUNTER
+#include "kernels/counterkernels/tbfinteractioncounter.hpp"
+#endif
+
 using namespace vf;
 
 namespace {
@@ -18,15 +22,20 @@ constexpr int KE = 8;
 using SI3 = TbfMortonSpaceIndex<3, TbfSpacialConfiguration<double, 3>, false>;
 using FX3 = Fixture<double, SI3, KE>;
 using SeqAlgo = TbfAlgorithm<double, FX3::Kernel, SI3>;
+#ifdef VF_COUNTER
+using KernelUsed = TbfInteractionCounter<FX3::Kernel>;
+#else
+using KernelUsed = FX3::Kernel;
+#endif
 #if defined(VF_EXEC_OMP_TSM)
 constexpr bool TSM = true;
 using SeqAlgoT = TbfAlgorithmTsm<double, FX3::Kernel, SI3>;
-using ParAlgo = TbfOpenmpAlgorithmTsm<double, FX3::Kernel, SI3>;
+using ParAlgo = TbfOpenmpAlgorithmTsm<double, KernelUsed, SI3>;
 static const char* ExecName = "TbfOpenmpAlgorithmTsm";
 #elif defined(VF_EXEC_OMP)
 constexpr bool TSM = false;
 using SeqAlgoT = SeqAlgo;
-using ParAlgo = TbfOpenmpAlgorithm<double, FX3::Kernel, SI3>;
+using ParAlgo = TbfOpenmpAlgorithm<double, KernelUsed, SI3>;
 static const char* ExecName = "TbfOpenmpAlgorithm";
 #endif
 
@@ -191,6 +200,18 @@ struct JobRunner {
             if(trace) vfs::traceEnable(true);
             execOn(fx, *algo);
             if(trace) vfs::traceEnable(false);
+#ifdef VF_COUNTER
+            {
+                std::vector<typename KernelUsed::ReduceType> per;
+                algo->applyToAllKernels([&](const auto& k){ per.push_back(k.getReduceData()); });
+                auto fwd = typename KernelUsed::ReduceType(); auto bwd = typename KernelUsed::ReduceType();
+                for(size_t i = 0 ; i < per.size() ; ++i){ fwd = KernelUsed::ReduceType::Reduce(fwd, per[i]); bwd = KernelUsed::ReduceType::Reduce(per[per.size()-1-i], bwd); }
+                if(long(per.size()) != job.nbWorkers) out.add("counter:number-of-kernel-copies", std::to_string(per.size()) + " copies for " + std::to_string(job.nbWorkers) + " workers");
+                FX3::compareCounts(out, fwd, fx.referenceCounts());
+                Outcome o2; FX3::compareCounts(o2, bwd, fx.referenceCounts());
+                for(const auto& v : o2.violations) out.add(v.key + ":reverse-merge", v.detail);
+            }
+#endif
             algoPtr = nullptr;
         }
         vfs::RunTrace tr = vfs::endRun();
